@@ -242,7 +242,21 @@ Fixpoint parse (fuel : nat) (vars0 : smap) (contents : str) {struct fuel} : outc
   | vars =>
     let o := map fst (ords vars) in
     let (d, v) := expand_definitions o o vars (r_dest r) in
-    Ok (with_vars v (with_dest d r))
+    (* prefix and suffix lines live outside the buffer: each is expanded by a further call
+       (which runs the definitions-in-definitions loop again on the same map) *)
+    let expand_list :=
+      fix go (l : list str) (v : smap) : list str * smap :=
+        match l with
+        | [] => ([], v)
+        | x :: l' =>
+          let o' := map fst (ords v) in
+          let (x', v') := expand_definitions o' o' v x in
+          let (rest, v'') := go l' v' in (x' :: rest, v'')
+        end in
+    let (pfx, v1) := expand_list (r_prefixes r) v in
+    let (sfx, v2) := expand_list (r_suffixes r) v1 in
+    Ok {| r_dest := d; r_vars := v2; r_flag_i := r_flag_i r; r_flag_s := r_flag_s r;
+          r_prefixes := pfx; r_suffixes := sfx |}
   end.
 
 End Orders.
